@@ -59,6 +59,16 @@ def norm_allow(sd):
     return out
 
 
+def _has(v):
+    if isinstance(v, str):
+        return "\r" in v or "\x00" in v
+    if isinstance(v, dict):
+        return any(_has(k) or _has(x) for k, x in v.items())
+    if isinstance(v, (list, tuple)):
+        return any(_has(x) for x in v)
+    return False
+
+
 def has_cr_nul(toks):
     for t in walk(toks):
         for f in (t.content, t.markup, t.info, t.tag, t.type):
@@ -67,7 +77,7 @@ def has_cr_nul(toks):
         for k, v in t.attrs.items():
             if isinstance(v, str) and ("\r" in v or "\x00" in v) or ("\r" in k or "\x00" in k):
                 return f"{t.type}.attrs[{k!r}]={v!r}"
-        if t.meta and ("\r" in repr(t.meta).replace("\\r", "\r") or "\\x00" in repr(t.meta)):
+        if t.meta and _has(t.meta):
             return f"{t.type}.meta={t.meta!r}"
     return None
 
